@@ -361,27 +361,39 @@ func oracleC07(r *Result) {
 		}
 		w.probe("conformant_" + k)
 		bind := t.Msg.Binding
+		accepted := func() {
+			w.probe("conformant_" + k + "_accepted")
+			if tf := t.Msg.Style.TextForm; tf != 0 {
+				w.probe([]string{"", "accepted_with_cdata_text", "accepted_with_character_references", "accepted_with_comment_inside_text", "accepted_with_cdata_text"}[mod(tf, 5)])
+				if t.Sent.Signed && bind != "redirect" {
+					w.probe("accepted_signed_with_nonplain_text_form")
+				}
+			}
+			if t.Msg.Style.B64Lines != 0 && bind == "post" {
+				w.probe("accepted_post_base64_with_line_breaks")
+			}
+		}
 		switch k {
 		case "sso":
 			if rec != nil && rec.SPCfg != nil && !supportedOnly(rec.SPCfg) {
 				continue // an SP whose consumer endpoints the IdP cannot serve may be refused (C08)
 			}
 			if len(persisted(t)) == 1 && t.Reply.Status == 303 {
-				w.probe("conformant_sso_accepted")
+				accepted()
 				continue
 			}
 			r.violate("C07 conformant-authnrequest-rejected", "C07:sso:"+bind+":"+styleClass(t)+":"+reasonClass(t),
 				"a conformant AuthnRequest of a registered SP is persisted and sent to login", replySummary(t)+" sent: "+t.Sent.Summary, t.ID)
 		case "slo":
 			if t.Reply.Msg != nil && t.Reply.Msg.Kind == "LogoutResponse" && t.Reply.Msg.Success {
-				w.probe("conformant_slo_accepted")
+				accepted()
 				continue
 			}
 			r.violate("C07 conformant-logoutrequest-rejected", "C07:slo:"+bind+":"+styleClass(t)+":"+reasonClass(t),
 				"a conformant LogoutRequest of a registered SP is answered with status Success", replySummary(t)+" sent: "+t.Sent.Summary, t.ID)
 		case "attrq":
 			if t.Reply.IsSuccess() {
-				w.probe("conformant_attrq_accepted")
+				accepted()
 				continue
 			}
 			r.violate("C07 conformant-attributequery-rejected", "C07:attrq:soap:"+styleClass(t)+":"+reasonClass(t),
